@@ -151,21 +151,203 @@ Section Mirror.
   Ltac rfields := cbn [s_x s_y s_z s_rx s_ry s_rz s_shape s_n1 s_n2 s_k1 s_refl s_aper s_coat
                        rx ry rz rL rM rN ri rw ropd option_map sg mirror_ray].
 
+  Lemma localize_mx s r : sym_x s -> localize s (mx r) = mx (localize s r).
+  Proof.
+    intros (Hx & Hry & Hrz & Hsh).
+    destruct s as [sx sy sz srx sry srz sh n1 n2 k1 rf ap co].
+    cbn in Hx, Hry, Hrz, Hsh. subst sx sry srz.
+    destruct r as [x y z L M N i w opd].
+    unfold localize. Timeout 20 rfields.
+    rewrite !nonzero_0. 
+    unfold k_translate.
+    rewrite !(nl_neg_0 NL).
+    rewrite !(nl_add_0 NL).
+    destruct (nonzero srx); rfields; repeat (dpair; rfields); reflexivity.
+  Qed.
+  Lemma globalize_mx s r : sym_x s -> globalize s (mx r) = mx (globalize s r).
+  Proof.
+    intros (Hx & Hry & Hrz & Hsh).
+    destruct s as [sx sy sz srx sry srz sh n1 n2 k1 rf ap co].
+    cbn in Hx, Hry, Hrz, Hsh. subst sx sry srz.
+    destruct r as [x y z L M N i w opd].
+    unfold globalize. Timeout 20 rfields.
+    rewrite !nonzero_0. 
+    unfold k_translate. rfields.
+    rewrite !(nl_add_0 NL).
+    destruct (nonzero srx); rfields; repeat (dpair; rfields); rewrite ?(nl_add_0 NL); reflexivity.
+  Qed.
+
+  Lemma refract_mirror_x0 ny nz n1 n2 L M N :
+    k_refract O (ofZ 0) ny nz n1 n2 (neg L) M N =
+    (let '(tx, ty, tz) := k_refract O (ofZ 0) ny nz n1 n2 L M N in (neg tx, ty, tz)).
+  Proof. pose proof (refract_mirror_x (ofZ 0) ny nz n1 n2 L M N) as H. rewrite (nl_neg_0 NL) in H. exact H. Qed.
+  Lemma reflect_mirror_x0 ny nz L M N :
+    k_reflect O (ofZ 0) ny nz (neg L) M N =
+    (let '(tx, ty, tz) := k_reflect O (ofZ 0) ny nz L M N in (neg tx, ty, tz)).
+  Proof. pose proof (reflect_mirror_x (ofZ 0) ny nz L M N) as H. rewrite (nl_neg_0 NL) in H. exact H. Qed.
+
   Lemma trace_surface_mirror_x s r :
     sym_x s -> trace_surface s (mx r) = option_map mx (trace_surface s r).
   Proof.
-    intros (Hx & Hry & Hrz & Hsh).
-    destruct s as [sx sy sz srx sry srz sh n1 n2 k1 rf ap co]; cbn in Hx, Hry, Hrz, Hsh; subst sx sry srz.
+    intros Hs. unfold trace_surface. rewrite (localize_mx _ _ Hs).
+    destruct (localize s r) as [x y z L M N i w opd].
+    pose proof Hs as (Hx & Hry & Hrz & Hsh).
+    destruct (s_shape s) as [|R k| | |] eqn:Esh; try discriminate; unfold distance, normal; rfields.
+    - (* plane *)
+      set (t := k_plane_distance O z N).
+      rewrite propagate_mirror_x.
+      destruct (k_propagate O t x L y M z N (s_k1 s) w i) as [[[px py] pz] pi].
+      destruct (s_aper s) as [[rmax rmin]|]; rfields;
+        rewrite ?(proj1 (radial_clip_mirror _ _ _ _ _));
+        (destruct (s_refl s);
+         [ rewrite reflect_mirror_x0; destruct (k_reflect O (ofZ 0) (ofZ 0) (ofZ 1) L M N) as [[tx ty] tz]
+         | rewrite refract_mirror_x0; destruct (k_refract O (ofZ 0) (ofZ 0) (ofZ 1) (s_n1 s) (s_n2 s) L M N) as [[tx ty] tz] ]);
+        destruct (s_coat s) as [[tr rf]|]; rfields;
+        rewrite <- (globalize_mx _ _ Hs); reflexivity.
+    - (* conic *)
+      rewrite std_distance_mirror_x. set (t := k_std_distance O k N L M z x y R).
+      rewrite propagate_mirror_x.
+      destruct (k_propagate O t x L y M z N (s_k1 s) w i) as [[[px py] pz] pi].
+      destruct (s_aper s) as [[rmax rmin]|]; rfields;
+        rewrite ?(proj1 (radial_clip_mirror _ _ _ _ _));
+        rewrite std_normal_mirror_x; destruct (k_std_normal O px py R k) as [[nx ny] nz];
+        (destruct (s_refl s);
+         [ rewrite reflect_mirror_x; destruct (k_reflect O nx ny nz L M N) as [[tx ty] tz]
+         | rewrite refract_mirror_x; destruct (k_refract O nx ny nz (s_n1 s) (s_n2 s) L M N) as [[tx ty] tz] ]);
+        destruct (s_coat s) as [[tr rf]|]; rfields;
+        rewrite <- (globalize_mx _ _ Hs); reflexivity.
+  Qed.
+  Lemma localize_my s r : sym_y s -> localize s (my r) = my (localize s r).
+  Proof.
+    intros (Hy & Hrx & Hrz & Hsh).
+    destruct s as [sx sy sz srx sry srz sh n1 n2 k1 rf ap co].
+    cbn in Hy, Hrx, Hrz, Hsh. subst sy srx srz.
     destruct r as [x y z L M N i w opd].
-    unfold trace_surface, localize, globalize. rfields.
-    rewrite !nonzero_0. unfold k_translate.
-    rewrite !(nl_neg_0 NL), !(nl_add_0 NL).
-    destruct sh as [|R k| | |]; try discriminate; unfold distance, normal;
-    destruct (nonzero srx); rfields;
-    repeat (first [ rewrite std_distance_mirror_x | rewrite propagate_mirror_x
-                  | rewrite (proj1 (radial_clip_mirror _ _ _ _ _)) | rewrite std_normal_mirror_x
-                  | rewrite reflect_mirror_x | rewrite refract_mirror_x | dpair ]; rfields).
-    all: idtac.
-    Show.
-  Admitted.
+    unfold localize. Timeout 20 rfields.
+    rewrite !nonzero_0. 
+    unfold k_translate.
+    rewrite !(nl_neg_0 NL).
+    rewrite !(nl_add_0 NL).
+    destruct (nonzero sry); rfields; repeat (dpair; rfields); reflexivity.
+  Qed.
+  Lemma globalize_my s r : sym_y s -> globalize s (my r) = my (globalize s r).
+  Proof.
+    intros (Hy & Hrx & Hrz & Hsh).
+    destruct s as [sx sy sz srx sry srz sh n1 n2 k1 rf ap co].
+    cbn in Hy, Hrx, Hrz, Hsh. subst sy srx srz.
+    destruct r as [x y z L M N i w opd].
+    unfold globalize. Timeout 20 rfields.
+    rewrite !nonzero_0. 
+    unfold k_translate. rfields.
+    rewrite !(nl_add_0 NL).
+    destruct (nonzero sry); rfields; repeat (dpair; rfields); rewrite ?(nl_add_0 NL); reflexivity.
+  Qed.
+
+  Lemma refract_mirror_y0 nx nz n1 n2 L M N :
+    k_refract O nx (ofZ 0) nz n1 n2 L (neg M) N =
+    (let '(tx, ty, tz) := k_refract O nx (ofZ 0) nz n1 n2 L M N in (tx, neg ty, tz)).
+  Proof. pose proof (refract_mirror_y nx (ofZ 0) nz n1 n2 L M N) as H. rewrite (nl_neg_0 NL) in H. exact H. Qed.
+  Lemma reflect_mirror_y0 nx nz L M N :
+    k_reflect O nx (ofZ 0) nz L (neg M) N =
+    (let '(tx, ty, tz) := k_reflect O nx (ofZ 0) nz L M N in (tx, neg ty, tz)).
+  Proof. pose proof (reflect_mirror_y nx (ofZ 0) nz L M N) as H. rewrite (nl_neg_0 NL) in H. exact H. Qed.
+
+  Lemma trace_surface_mirror_y s r :
+    sym_y s -> trace_surface s (my r) = option_map my (trace_surface s r).
+  Proof.
+    intros Hs. unfold trace_surface. rewrite (localize_my _ _ Hs).
+    destruct (localize s r) as [x y z L M N i w opd].
+    pose proof Hs as (Hy & Hrx & Hrz & Hsh).
+    destruct (s_shape s) as [|R k| | |] eqn:Esh; try discriminate; unfold distance, normal; rfields.
+    - (* plane *)
+      set (t := k_plane_distance O z N).
+      rewrite propagate_mirror_y.
+      destruct (k_propagate O t x L y M z N (s_k1 s) w i) as [[[px py] pz] pi].
+      destruct (s_aper s) as [[rmax rmin]|]; rfields;
+        rewrite ?(proj2 (radial_clip_mirror _ _ _ _ _));
+        (destruct (s_refl s);
+         [ rewrite reflect_mirror_y0; destruct (k_reflect O (ofZ 0) (ofZ 0) (ofZ 1) L M N) as [[tx ty] tz]
+         | rewrite refract_mirror_y0; destruct (k_refract O (ofZ 0) (ofZ 0) (ofZ 1) (s_n1 s) (s_n2 s) L M N) as [[tx ty] tz] ]);
+        destruct (s_coat s) as [[tr rf]|]; rfields;
+        rewrite <- (globalize_my _ _ Hs); reflexivity.
+    - (* conic *)
+      rewrite std_distance_mirror_y. set (t := k_std_distance O k N L M z x y R).
+      rewrite propagate_mirror_y.
+      destruct (k_propagate O t x L y M z N (s_k1 s) w i) as [[[px py] pz] pi].
+      destruct (s_aper s) as [[rmax rmin]|]; rfields;
+        rewrite ?(proj2 (radial_clip_mirror _ _ _ _ _));
+        rewrite std_normal_mirror_y; destruct (k_std_normal O px py R k) as [[nx ny] nz];
+        (destruct (s_refl s);
+         [ rewrite reflect_mirror_y; destruct (k_reflect O nx ny nz L M N) as [[tx ty] tz]
+         | rewrite refract_mirror_y; destruct (k_refract O nx ny nz (s_n1 s) (s_n2 s) L M N) as [[tx ty] tz] ]);
+        destruct (s_coat s) as [[tr rf]|]; rfields;
+        rewrite <- (globalize_my _ _ Hs); reflexivity.
+  Qed.
+
+  (** *** the whole sequential trace, by induction over the surface list *)
+  Theorem trace_mirror_x ss : forall r,
+    Forall sym_x ss -> trace ss (mx r) = option_map (map mx) (trace ss r).
+  Proof.
+    induction ss as [|s ss IH]; intros r H; [reflexivity|].
+    inversion H as [|s' ss' Hs Hss]; subst. cbn [trace].
+    rewrite (trace_surface_mirror_x _ _ Hs).
+    destruct (trace_surface s r) as [r'|]; [|reflexivity]. cbn [option_map].
+    rewrite (IH _ Hss). destruct (trace ss r'); reflexivity.
+  Qed.
+  Theorem trace_mirror_y ss : forall r,
+    Forall sym_y ss -> trace ss (my r) = option_map (map my) (trace ss r).
+  Proof.
+    induction ss as [|s ss IH]; intros r H; [reflexivity|].
+    inversion H as [|s' ss' Hs Hss]; subst. cbn [trace].
+    rewrite (trace_surface_mirror_y _ _ Hs).
+    destruct (trace_surface s r) as [r'|]; [|reflexivity]. cbn [option_map].
+    rewrite (IH _ Hss). destruct (trace ss r'); reflexivity.
+  Qed.
+
+  (** the product of the two mirrors (rotation by pi about the axis) *)
+  Lemma mirror_xy_compose (r : ray O) : mirror_ray true true r = mx (my r).
+  Proof. destruct r; reflexivity. Qed.
+  Theorem trace_mirror_xy ss r :
+    Forall sym_x ss -> Forall sym_y ss ->
+    trace ss (mirror_ray true true r) = option_map (map (mirror_ray true true)) (trace ss r).
+  Proof.
+    intros Hx Hy. rewrite mirror_xy_compose, (trace_mirror_x _ _ Hx), (trace_mirror_y _ _ Hy).
+    destruct (trace ss r) as [l|]; [|reflexivity]. cbn [option_map]. f_equal.
+    rewrite map_map. apply map_ext. intros a. symmetry. apply mirror_xy_compose.
+  Qed.
+
+  (** mirroring twice is the identity: the mirrored trace determines the original one *)
+  Lemma mirror_involutive bx by_ (r : ray O) : mirror_ray bx by_ (mirror_ray bx by_ r) = r.
+  Proof. destruct r, bx, by_; unfold mirror_ray, sg; cbn; rewrite ?(nl_negneg NL); reflexivity. Qed.
 End Mirror.
+
+(** ** instances: exact reals and extended reals *)
+Definition sym_x_R := @sym_x ROps.
+Theorem trace_mirror_x_R (ss : list (surf ROps)) (r : ray ROps) :
+  Forall (@sym_x ROps) ss -> trace ss (mirror_ray true false r) = option_map (map (mirror_ray true false)) (trace ss r).
+Proof. apply trace_mirror_x. exact NegLaws_R. Qed.
+Theorem trace_mirror_y_R (ss : list (surf ROps)) (r : ray ROps) :
+  Forall (@sym_y ROps) ss -> trace ss (mirror_ray false true r) = option_map (map (mirror_ray false true)) (trace ss r).
+Proof. apply trace_mirror_y. exact NegLaws_R. Qed.
+Theorem trace_mirror_xy_R (ss : list (surf ROps)) (r : ray ROps) :
+  Forall (@sym_x ROps) ss -> Forall (@sym_y ROps) ss ->
+  trace ss (mirror_ray true true r) = option_map (map (mirror_ray true true)) (trace ss r).
+Proof. apply trace_mirror_xy. exact NegLaws_R. Qed.
+Theorem trace_mirror_x_X (ss : list (surf XOps)) (r : ray XOps) :
+  Forall (@sym_x XOps) ss -> trace ss (mirror_ray true false r) = option_map (map (mirror_ray true false)) (trace ss r).
+Proof. apply trace_mirror_x. exact NegLaws_X. Qed.
+Theorem trace_mirror_y_X (ss : list (surf XOps)) (r : ray XOps) :
+  Forall (@sym_y XOps) ss -> trace ss (mirror_ray false true r) = option_map (map (mirror_ray false true)) (trace ss r).
+Proof. apply trace_mirror_y. exact NegLaws_X. Qed.
+Theorem trace_mirror_xy_X (ss : list (surf XOps)) (r : ray XOps) :
+  Forall (@sym_x XOps) ss -> Forall (@sym_y XOps) ss ->
+  trace ss (mirror_ray true true r) = option_map (map (mirror_ray true true)) (trace ss r).
+Proof. apply trace_mirror_xy. exact NegLaws_X. Qed.
+
+(** the hypotheses are satisfiable: a biconvex singlet with a stop plane *)
+Example sym_example :
+  let l := [mkSurf (O:=ROps) 0%R 0%R 0%R 0%R 0%R 0%R (SStd (O:=ROps) 50%R 0%R) 1%R (3/2)%R 0%R false (Some (10%R, 0%R)) None;
+            mkSurf (O:=ROps) 0%R 0%R 5%R 0%R 0%R 0%R (SStd (O:=ROps) (-50)%R (-1)%R) (3/2)%R 1%R 0%R false None None;
+            mkSurf (O:=ROps) 0%R 0%R 60%R 0%R 0%R 0%R (SPlane (O:=ROps)) 1%R 1%R 0%R false None None] in
+  Forall (@sym_x ROps) l /\ Forall (@sym_y ROps) l.
+Proof. cbv zeta. split; repeat constructor. Qed.
